@@ -855,6 +855,67 @@ pub fn special_mate_family(rng: &mut Rng, tries: usize, out: &mut Vec<Crafted>) 
     }
 }
 
+/// "Hopeless" positions for the search monitors: the side to move has legal moves, but EVERY one of
+/// them allows (a) an immediate checkmating reply, or (b) an immediate stalemating reply.  A search
+/// that rejects all root moves in such a position ends up committing "no move".
+pub fn hopeless_positions(rng: &mut Rng, tries: usize, want: usize) -> Vec<(&'static str, Position)> {
+    let mut out = Vec::new();
+    for t in 0..tries {
+        if out.len() >= want {
+            break;
+        }
+        let mut p = Position::empty();
+        let loser = if t % 2 == 0 { Col::W } else { Col::B };
+        let winner = loser.flip();
+        p.turn = loser;
+        let stalemate_kind = t % 3 == 0;
+        // loser: king near an edge (+ up to two blocked-ish pawns); winner: king + 1-3 pieces
+        let edge = |rng: &mut Rng| -> Sq {
+            let a = rng.below(8) as i32;
+            match rng.below(4) {
+                0 => sq(a, 0),
+                1 => sq(a, 7),
+                2 => sq(0, a),
+                _ => sq(7, a),
+            }
+        };
+        let lk = edge(rng);
+        p.board[lk as usize] = Some((loser, Kind::K));
+        let wk = rng.below(64) as u8;
+        if p.board[wk as usize].is_some() {
+            continue;
+        }
+        p.board[wk as usize] = Some((winner, Kind::K));
+        let n_w = if stalemate_kind { rng.range(1, 2) } else { rng.range(1, 3) };
+        for _ in 0..n_w {
+            let k = if stalemate_kind { *rng.pick(&[Kind::B, Kind::N, Kind::Q, Kind::R, Kind::P]) } else { *rng.pick(&[Kind::Q, Kind::R, Kind::R, Kind::Q, Kind::B, Kind::N]) };
+            place_random(&mut p, rng, winner, k, if k == Kind::P { 1..=6 } else { 0..=7 });
+        }
+        for _ in 0..rng.range(0, 2) {
+            place_random(&mut p, rng, loser, Kind::P, 1..=6);
+        }
+        if p.chess_root_ok().is_err() {
+            continue;
+        }
+        let legal = p.legal_moves();
+        if legal.is_empty() || legal.len() > 8 {
+            continue;
+        }
+        let all = legal.iter().all(|m| {
+            let q = p.apply(*m);
+            q.legal_moves().iter().any(|r| {
+                let z = q.apply(*r);
+                let none = z.legal_moves().is_empty();
+                none && (z.in_check() != stalemate_kind)
+            })
+        });
+        if all {
+            out.push((if stalemate_kind { "every-move-allows-stalemate" } else { "every-move-allows-mate" }, p));
+        }
+    }
+    out
+}
+
 /// Mates in one by a capture after which only the kings and exactly two minor pieces remain (the
 /// boundary of "insufficient material").  The list was enumerated with this model by the developer
 /// tool mon-core/src/bin/gen-small-mates.rs; every entry is re-validated here (a capture that mates
